@@ -296,3 +296,35 @@ package rapid
 //@ func (*rapidContext).Clear
 //@   requires r != nil && typeis(r.appCtx, *appctx.applicationContext) && ref(r.appCtx) != 0 && r.renderingService != nil
 //@   ensures [like-a-fresh-context] !r.initDone && regOf(r).runtime == nil && len(regOf(r).externalAgents.byName) == 0 && len(regOf(r).internalAgents.byName) == 0 && !has(ctxOf(r.appCtx).m, appctx.AppCtxFirstFatalErrorKey) && !has(ctxOf(r.appCtx).m, appctx.AppCtxRuntimeReleaseKey)
+
+// ---------------------------------------------------------------------------------------------
+// C06: a process exit or reported failure yields the right error
+// ---------------------------------------------------------------------------------------------
+//@ event TerminationHandled = call rapid.(*shutdownContext).handleProcessExit
+//@ event FlowsCancelled = call core.(RegistrationService).CancelFlows
+//@ event FlowsCancelledWithoutError = call core.(RegistrationService).CancelFlows when a1 == nil
+//@ event ShuttingDownAsked = ret rapid.(*shutdownContext).isShuttingDown
+//@ event NotShuttingDown = ret rapid.(*shutdownContext).isShuttingDown when !r0
+//@ event StoreFatalAny = call appctx.StoreFirstFatalError
+//@ event StoreRuntimeExit = call appctx.StoreFirstFatalError when a1 == fatalerror.RuntimeExit
+//@ event StoreAgentCrash = call appctx.StoreFirstFatalError when a1 == fatalerror.AgentCrash
+//@ event DefaultErrorBuilt = ret interop.GetErrorResponseWithFormattedErrorMessage
+//@ event DefaultErrorBuiltFrom = call interop.GetErrorResponseWithFormattedErrorMessage
+
+// every termination event: one exit notification to the shutdown bookkeeping, then the flows are cancelled; outside a
+// shutdown a fatal error is recorded first (runtime exit or extension crash, nothing else) and the cancellation carries an error
+//@ func (*rapidContext).watchEvents
+//@   requires c != nil && c.shutdownContext != nil
+//@   loop for event := range events: invariant [per-event] delta(TerminationHandled) == delta(FlowsCancelled) && delta(ShuttingDownAsked) == delta(FlowsCancelled) && delta(StoreFatalAny) == delta(NotShuttingDown) && delta(StoreRuntimeExit) + delta(StoreAgentCrash) == delta(StoreFatalAny) && delta(FlowsCancelledWithoutError) == delta(ShuttingDownAsked) - delta(NotShuttingDown) && (delta(FlowsCancelled) >= 1 ==> last(TerminationHandled) < last(FlowsCancelled)) && (delta(StoreFatalAny) >= 1 ==> last(StoreFatalAny) <= now())
+
+// the failure message: error type = first recorded fatal error, else Sandbox.Failure
+//@ func newInvokeFailureMsg
+//@   requires execCtx != nil && invokeRequest != nil
+//@   ensures [names-the-first-fault] r0 != nil && fresh(r0) && (has(ctxOf(execCtx.appCtx).m, appctx.AppCtxFirstFatalErrorKey) ==> iface(r0.ErrorType) == ctxOf(execCtx.appCtx).m[appctx.AppCtxFirstFatalErrorKey]) && (!has(ctxOf(execCtx.appCtx).m, appctx.AppCtxFirstFatalErrorKey) ==> r0.ErrorType == fatalerror.SandboxFailure)
+//@   ensures [carries-the-error] r0.ErrorMessage == err && r0.RequestReset && !r0.ResetReceived && r0.InvokeResponseMode == invokeRequest.InvokeResponseMode
+
+//@ func handleInvokeError
+//@   requires execCtx != nil && invokeRequest != nil
+//@   ensures [default-body-names-the-first-fault] r0 != nil && delta(DefaultErrorBuiltFrom) == 1 && lastarg(DefaultErrorBuiltFrom, 0) == r0.ErrorType && lastarg(DefaultErrorBuiltFrom, 1) == err && lastarg(DefaultErrorBuiltFrom, 2) == invokeRequest.ID && r0.DefaultErrorResponse == lastret(DefaultErrorBuilt) && r0.DefaultErrorResponse != nil
+//@   ensures [first-fault] (has(ctxOf(execCtx.appCtx).m, appctx.AppCtxFirstFatalErrorKey) ==> iface(r0.ErrorType) == ctxOf(execCtx.appCtx).m[appctx.AppCtxFirstFatalErrorKey]) && (!has(ctxOf(execCtx.appCtx).m, appctx.AppCtxFirstFatalErrorKey) ==> r0.ErrorType == fatalerror.SandboxFailure)
+//@   ensures [reset-handling] (r0.ResetReceived <==> extEnabled() && err == errResetReceived) && (r0.RequestReset <==> extEnabled())
